@@ -185,6 +185,11 @@ func boundedByExisting(isV func(ssa.Value) bool) core.EdgeMatcher {
 		}
 		return false
 	}
+	return boundedBy(isV, isExisting)
+}
+
+// boundedBy matches "v <= y" (in any of its spellings) where isBound(y).
+func boundedBy(isV, isExisting func(ssa.Value) bool) core.EdgeMatcher {
 	return func(cm core.Cmp) (bool, bool) {
 		if isV(cm.X) && isExisting(cm.Y) {
 			switch cm.Op {
@@ -204,6 +209,43 @@ func boundedByExisting(isV func(ssa.Value) bool) core.EdgeMatcher {
 		}
 		return false, false
 	}
+}
+
+// resultBounded: the integer that call returns (first result of the repository
+// function h) is, on every success return of h, behind a comparison with a
+// constant or with a parameter of h for which this call passes a constant
+// (readBoundedSize(r, limit, err)).
+func resultBounded(call *ssa.Call) bool {
+	h := call.Call.StaticCallee()
+	if h == nil || len(h.Blocks) == 0 || !inRepo(h) {
+		return false
+	}
+	constParam := map[*ssa.Parameter]bool{}
+	for i, a := range call.Call.Args {
+		if _, ok := core.ConstInt(core.StripConv(a)); ok && i < len(h.Params) {
+			constParam[h.Params[i]] = true
+		}
+	}
+	n := 0
+	for _, r := range core.Returns(h) {
+		if !successReturn(r) || len(r.Results) == 0 {
+			continue
+		}
+		v := core.StripConv(core.Canon(core.RetVal(r, 0)))
+		if _, isConst := v.(*ssa.Const); isConst {
+			continue
+		}
+		n++
+		isV := func(x ssa.Value) bool { return core.StripConv(core.Canon(x)) == v }
+		isP := func(y ssa.Value) bool {
+			p, ok := core.StripConv(y).(*ssa.Parameter)
+			return ok && constParam[p]
+		}
+		if !core.Guarded(h, r, core.AnyOf(core.UpperBound(isV, 0), boundedBy(isV, isP))) {
+			return false
+		}
+	}
+	return n > 0
 }
 
 // consumesOne: every success path of f passes a decoder call that consumes at
@@ -522,6 +564,9 @@ func wireIntegerSinks(c *core.Ctx, d *decoderSet, ruleAlloc, ruleLoop string, ne
 			nSinks++
 			key := fmt.Sprintf("%s/%s#%d", core.FuncKey(fn), what, *ord)
 			upper := core.Guarded(fn, in, core.AnyOf(core.UpperBound(same(ti.src), 0), boundedByExisting(same(ti.src))))
+			if srcCall, _ := core.CallResult(ti.src); !upper && srcCall != nil && resultBounded(srcCall) {
+				upper = true // the helper that read the integer compared it with a limit before returning it
+			}
 			if what == "reflect.Value.SetLen" {
 				upper = true // SetLen allocates nothing; it only panics on a negative or over-capacity length
 			}
